@@ -64,6 +64,10 @@ structure Engine (σ : Type) where
   /-- `SSL_pending() > 0`: decrypted application data of a record that was only partly read is held
   inside the engine (no further wire event will announce it) -/
   pending : σ → Bool := fun _ => false
+  /-- `SSL_shutdown()`: sends the close_notify alert through the write BIO (if that has not happened yet) and looks for the
+  peer's.  `.done (k+1)` = both alerts exchanged (returns 1), `.done 0` = ours is out, the peer's is not in yet (returns 0),
+  anything else = failure (returns -1: the alert could not be written, or a fatal error) -/
+  sslShutdown : σ → EngProg σ := fun s => .ret (.done 1) [] s
 
 /-- every way the program can end satisfies `P` -/
 inductive AllLeaves {σ : Type} (P : SslAns → Bytes → σ → Prop) : EngProg σ → Prop where
@@ -267,6 +271,70 @@ def readLoop (C : Cfg) (W : World ω) (E : Engine σ) (size : Nat) : Nat → St 
     match readRound C W E size i s with
     | (some o, s') => (o, s')
     | (none, s') => readLoop C W E size i s'
+
+/-! ### `Shutdown()` (run by the destructor unless the last error was fatal; whatever it throws is swallowed there) -/
+
+/-- "`SSL_shutdown` returned 1": both close_notify alerts are exchanged -/
+def SslAns.shutDone : SslAns → Bool
+  | .done (_ + 1) => true
+  | _ => false
+
+/-- what `SSL_shutdown` returns -/
+def shutRes (ans : SslAns) : Int :=
+  match ans with
+  | .done (_ + 1) => 1
+  | .done 0 => 0
+  | _ => -1
+
+/-- the size of the local buffer `Shutdown` drains into -/
+def shutdownBuf : Nat := 1024
+
+/-- one `SSL_shutdown()`: one run of the engine -/
+def shutCall (W : World ω) (E : Engine σ) (s : St σ ω) : Out SslAns × St σ ω :=
+  match interp W s (E.sslShutdown s.e) with
+  | (.ok (ans, _), s1) => (.ok ans, s1)
+  | (.exn e, s1) => (.exn e, s1)
+  | (.abort m, s1) => (.abort m, s1)
+
+/-- the second `(void)SSL_shutdown()` after the drain loop -/
+def shutFinish (W : World ω) (E : Engine σ) (s : St σ ω) : Out Unit × St σ ω :=
+  match shutCall W E s with
+  | (.ok _, s1) => (.ok (), s1)
+  | (.exn e, s1) => (.exn e, s1)
+  | (.abort m, s1) => (.abort m, s1)
+
+/-- the drain loop of `Shutdown` with `i` rounds left: whatever the peer has sent is READ (and thrown away) until the
+peer's close_notify / end of stream (`SSL_read` returns 0), a failure `HandleResult` does not want retried (budget used up,
+nothing more to come) or `handshakeStepsMax` rounds; then the second `SSL_shutdown`.  Reading is what keeps the kernel
+from answering the close that follows with a reset, which would discard data still queued for sending (C15). -/
+def drainLoop (W : World ω) (E : Engine σ) : Nat → St σ ω → Out Unit × St σ ω
+  | 0, s => shutFinish W E s
+  | i + 1, s =>
+    match interp W s (E.sslRead s.e shutdownBuf) with
+    | (.exn e, s') => (.exn e, s')
+    | (.abort m, s') => (.abort m, s')
+    | (.ok (ans, _), s1) =>
+      let s1 := noteCall E s1 true [] ans
+      match ans with
+      | .done _ => drainLoop W E i s1
+      | .zeroReturn => shutFinish W E s1
+      | _ =>
+        match handleResult W s1 ans with
+        | (.exn e, s2) => (.exn e, s2)
+        | (.abort m, s2) => (.abort m, s2)
+        | (.ok false, s2) => shutFinish W E s2
+        | (.ok true, s2) => drainLoop W E i s2
+
+/-- the state `Shutdown` starts its engine calls in: no stale readiness, a budget of one second for all of it -/
+def shutdownPrep (s : St σ ω) : St σ ω :=
+  setTimeout { s with g := { s.g with isReadable := false, isWritable := false } } 1000
+
+/-- `Shutdown()` -/
+def tlsShutdown (C : Cfg) (W : World ω) (E : Engine σ) (s : St σ ω) : Out Unit × St σ ω :=
+  match shutCall W E (shutdownPrep s) with
+  | (.exn e, s1) => (.exn e, s1)
+  | (.abort m, s1) => (.abort m, s1)
+  | (.ok ans, s1) => if ans.shutDone then (.ok (), s1) else drainLoop W E C.stepsMax s1
 
 /-- `Read(data, size)` -/
 def tlsRead (C : Cfg) (W : World ω) (E : Engine σ) (s : St σ ω) (size : Nat) : Out Bytes × St σ ω :=
